@@ -150,7 +150,7 @@ func c10File(msgs []*ref.Msg, wrap int) string {
 		f := &ref.File{Namespace: "zz", Templates: []*ref.Template{t}}
 		src := ref.FileSrc(f, ref.Layout{}, nil)
 		// cut the message out of the printed template
-		s := src[strings.Index(src, "{msg"):strings.LastIndex(src, "{/msg}")+len("{/msg}")]
+		s := src[strings.Index(src, "{msg") : strings.LastIndex(src, "{/msg}")+len("{/msg}")]
 		switch (wrap + i) % 4 {
 		case 1:
 			s = "{if $a}" + s + "{/if}"
@@ -352,6 +352,31 @@ func init() {
 				if obs[0].id == base[0].id {
 					return fw.Result{Verdict: fw.Violated, Key: "id-insensitive:" + strings.Fields(what)[0], Case: map[string]string{"before": src, "after": c10File([]*ref.Msg{m3}, 0)},
 						Msg: fmt.Sprintf("%s but the id stayed %d (%q -> %q)", what, base[0].id, base[0].phstr, obs[0].phstr)}
+				}
+			}
+			// (e) text that mimics a placeholder: "{lb}NAME{rb} ..." and "{$name} ..." have the same braced form but
+			// different content; compiled one after the other in this process, in either order, each keeps its own id
+			{
+				v := c10Vars[int(seed%uint64(len(c10Vars)))]
+				tail := " " + c10Text(fw.NewRand(seed+5))
+				mp := &ref.Msg{Desc: "d", Meaning: m.Meaning, Body: []ref.Node{&ref.Print{E: &ref.DataRef{Name: v}}, &ref.Raw{Text: tail}}}
+				mt := &ref.Msg{Desc: "d", Meaning: m.Meaning, Body: []ref.Node{&ref.Special{Name: "lb"}, &ref.Raw{Text: ref.UpperUnderscore(v)}, &ref.Special{Name: "rb"}, &ref.Raw{Text: tail}}}
+				pair := []*ref.Msg{mp, mt}
+				if seed%2 == 0 {
+					pair = []*ref.Msg{mt, mp}
+				}
+				for _, one := range pair {
+					obs, err := c10Compile(c10File([]*ref.Msg{one}, 0))
+					if err != nil || len(obs) != 1 {
+						return fw.Result{Verdict: fw.Inconclusive, Key: "mimic-does-not-compile", Msg: fmt.Sprint(err), Case: c10File([]*ref.Msg{one}, 0)}
+					}
+					want := ref.ModelMsg(one)
+					ctx.Obs("placeholder_mimics", 1)
+					if obs[0].id != want.ID {
+						return fw.Result{Verdict: fw.Violated, Key: "id-depends-on-earlier-messages", Case: map[string]string{"first": c10File(pair[:1], 0), "second": c10File(pair[1:], 0)},
+							Msg: fmt.Sprintf("message %q (meaning %q) got id %d, the official fingerprint is %d; a message with the same braced form but different content was compiled in this process before",
+								obs[0].phstr, one.Meaning, obs[0].id, want.ID)}
+					}
 				}
 			}
 			// (d) the official algorithm
